@@ -12,9 +12,34 @@ import time
 from concurrent.futures import ThreadPoolExecutor
 
 VERIF = os.path.dirname(os.path.dirname(os.path.abspath(__file__)))
-REPO = os.environ.get("VERIF_REPO", "/repo")
-WORK = os.path.join(VERIF, ".work")
-RUST = os.path.join(VERIF, "rust")
+REPO = os.path.abspath(os.environ.get("VERIF_REPO", "/repo"))
+# a tree other than /repo (a scratch worktree holding a seeded change) gets its own work area, so that
+# several trees can be checked at the same time without touching /repo
+WORK = os.path.join(VERIF, ".work") if REPO == "/repo" else os.path.join(VERIF, ".work", "alt-" + hashlib.sha256(REPO.encode()).hexdigest()[:10])
+RUST_SRC = os.path.join(VERIF, "rust")
+os.makedirs(WORK, exist_ok=True)
+
+
+def _rust_dir():
+    """harness crates with their path dependencies pointing at REPO"""
+    if REPO == "/repo":
+        return RUST_SRC
+    dst = os.path.join(WORK, "rust")
+    stamp = os.path.join(dst, ".stamp")
+    want = hash_tree([RUST_SRC]) + REPO
+    if not os.path.exists(stamp) or open(stamp).read() != want:
+        if os.path.isdir(dst):
+            shutil.rmtree(dst)
+        shutil.copytree(RUST_SRC, dst, ignore=shutil.ignore_patterns("target", "Cargo.lock"))
+        for d, _, fs in os.walk(dst):
+            for f in fs:
+                if f == "Cargo.toml":
+                    q = os.path.join(d, f)
+                    t = open(q).read().replace('"/repo/', '"%s/' % REPO).replace('"/verif/rust/', '"%s/' % dst)
+                    open(q, "w").write(t)
+        with open(stamp, "w") as f:
+            f.write(want)
+    return dst
 NCPU = int(os.environ.get("VERIF_JOBS", str(os.cpu_count() or 8)))
 
 BASE_ENV = dict(os.environ)
@@ -67,6 +92,16 @@ def hash_tree(paths, exts=(".rs", ".toml", ".ebnf", ".md", ".lock", ".py", ".sh"
     return h.hexdigest()[:16]
 
 
+_rust_cache = []
+
+
+def rust_dir():
+    if not _rust_cache:
+        os.makedirs(WORK, exist_ok=True)
+        _rust_cache.append(_rust_dir())
+    return _rust_cache[0]
+
+
 _repo_hash = None
 
 
@@ -79,7 +114,7 @@ def repo_hash():
 
 
 def machinery_hash():
-    return hash_tree([os.path.join(VERIF, "vfw"), RUST])
+    return hash_tree([os.path.join(VERIF, "vfw"), RUST_SRC])
 
 
 # ------------------------------------------------------------------------------------------------
@@ -123,7 +158,7 @@ def tool_cgdrv():
     """the P-gen driver linked against /repo/codegen as it is now"""
     if "cgdrv" not in _tools:
         tgt = os.path.join(WORK, "tgt", "cgdrv")
-        p = cargo_build(os.path.join(RUST, "cgdrv"), tgt)
+        p = cargo_build(os.path.join(rust_dir(), "cgdrv"), tgt)
         if p.returncode != 0:
             raise RuntimeError("cgdrv build failed:\n" + p.stdout[-6000:])
         _tools["cgdrv"] = os.path.join(tgt, "debug", "cgdrv")
@@ -135,7 +170,7 @@ def tool_vfrt(flavor="dev-hooks"):
     key = "vfrt-" + flavor
     if key not in _tools:
         tgt = os.path.join(WORK, "tgt", flavor)
-        p = cargo_build(os.path.join(RUST, "vfrt"), tgt, rustflags=flavor_flags(flavor))
+        p = cargo_build(os.path.join(rust_dir(), "vfrt"), tgt, rustflags=flavor_flags(flavor))
         if p.returncode != 0:
             raise RuntimeError("vfrt build failed:\n" + p.stdout[-6000:])
         _tools[key] = tgt
@@ -298,7 +333,7 @@ def write_batch_crate(crate_dir, batches, forbid_unsafe=True, macro_dep=False):
             json.dump(line_map, f)
         bins.append('[[bin]]\nname = "%s"\npath = "%s/main.rs"\n' % (name, name))
     with open(os.path.join(crate_dir, "Cargo.toml"), "w") as f:
-        f.write(BATCH_CARGO.format(repo=REPO, rust=RUST, bins="\n".join(bins),
+        f.write(BATCH_CARGO.format(repo=REPO, rust=rust_dir(), bins="\n".join(bins),
                                    extra_deps=('peginator_macro = { path = "%s/macro" }' % REPO) if macro_dep else ""))
 
 
